@@ -1,5 +1,252 @@
-import TshVerif.Model.ConvBash
+/-
+  C04 - Operands are evaluated exactly once, in source order, conditions eagerly.
+
+  The transpiler walk (Model/Transpile.lean, tied to transpiler.go by byte-for-byte correspondence of the
+  scripts of both targets) is written once, generically over the converter, so the order and multiplicity
+  of the converter operations it requests do not depend on the target.  Proved here with the tracing
+  converter (Lemmas/Trace.lean), for EVERY expression:
+    * `each_operand_once`: evaluating an expression requests exactly `opCount e` operations: one per
+      operator / builtin / call / variable read / string literal node of the AST -- no sub-expression is
+      evaluated twice or skipped (a single string index `s[i]` evaluates `i` once and passes its value
+      as both bounds);
+    * `arguments_left_to_right`, `binary_left_then_right`: the operations of the operands form consecutive
+      blocks in source order, followed by the operation itself;
+    * `if_conditions_before_branches`: for an if/else-if chain the condition of the `if` and of ALL
+      `else if` branches are evaluated before the `if` operation is requested; the branches then only
+      receive the already computed values (a `switch` is such a chain);
+    * `loop_order`: init; for; (incr; statement; endincr)?; condition; forcond; body; endfor.
+  For the bash target the same is visible in the block grammar of C01/C16 (`Shape`): between two
+  branches of an if-chain there is no room for a statement.  That the AST lists operands in source
+  order is the parser's part (AST correspondence); effect order at run time is decided by the tracer
+  oracle of the check.
+-/
+import TshVerif.Lemmas.Trace
 namespace Tsh.C04
-open Tsh Tsh.Bash
+open Tsh Tsh.Tr Tsh.Trace
+
+/-- a computation that, when it succeeds, appends exactly `n` events -/
+def Adds {α : Type} (n : Nat) (m : TM α) : Prop := ∀ s a s', m s = .ok (a, s') → s'.log.length = s.log.length + n
+
+theorem adds_pure {α : Type} (a : α) : Adds 0 (pure a : TM α) := by
+  intro s b s' h; rw [(pure_ok h).2]; rfl
+
+theorem adds_bind {α β : Type} {j k : Nat} {x : TM α} {f : α → TM β} (hx : Adds j x) (hf : ∀ a, Adds k (f a)) :
+    Adds (j + k) (x >>= f) := by
+  intro s b s'' h
+  obtain ⟨a, s', h1, h2⟩ := bind_ok h
+  rw [hf a _ _ _ h2, hx _ _ _ h1]; omega
+
+theorem adds_fail {α : Type} (n : Nat) (m : String) : Adds n (fail m : TM α) := by
+  intro s a s' h; simp [fail] at h
+
+theorem adds_val (op : String) (args : List String) : Adds 1 (val op args) := by
+  intro s v s' h; exact val_len h
+
+theorem Adds.cast {α : Type} {n m : Nat} {x : TM α} (h : Adds n x) (e : n = m) : Adds m x := e ▸ h
+
+theorem adds_funcCall (n : String) (a : List String) (r : List ValueType) (u : Bool) : Adds 1 (Trace.conv.funcCall n a r u) := by
+  intro s v s' h
+  simp [Trace.conv] at h
+  rw [← h.2]; simp
+
+theorem adds_appCall (cs : List (String × List String)) (u : Bool) : Adds 1 (Trace.conv.appCall cs u) := by
+  intro s v s' h
+  simp [Trace.conv] at h
+  rw [← h.2]; simp
+
+mutual
+/-- **Each operand exactly once.** -/
+theorem each_operand_once (e : Expr) (used : Bool) : Adds (opCount e) (evalExpr Trace.conv e used) := by
+  match e with
+  | .boolLit b => unfold evalExpr; exact adds_pure _
+  | .intLit n => unfold evalExpr; exact adds_pure _
+  | .strLit s => unfold evalExpr; exact (adds_bind (adds_val _ _) (fun _ => adds_pure _)).cast (by simp [opCount])
+  | .unary op x vt =>
+    unfold evalExpr
+    exact (adds_bind (each_operand_once x true) (fun _ => adds_bind (adds_val _ _) (fun _ => adds_pure _))).cast (by simp [opCount])
+  | .binary op l r =>
+    unfold evalExpr
+    exact (adds_bind (each_operand_once l true) (fun _ => adds_bind (each_operand_once r true) (fun _ =>
+      adds_bind (adds_val _ _) (fun _ => adds_pure _)))).cast (by simp [opCount]; omega)
+  | .compare op l r =>
+    unfold evalExpr
+    exact (adds_bind (each_operand_once l true) (fun _ => adds_bind (each_operand_once r true) (fun _ =>
+      adds_bind (adds_val _ _) (fun _ => adds_pure _)))).cast (by simp [opCount]; omega)
+  | .logical op l r =>
+    unfold evalExpr
+    exact (adds_bind (each_operand_once l true) (fun _ => adds_bind (each_operand_once r true) (fun _ =>
+      adds_bind (adds_val _ _) (fun _ => adds_pure _)))).cast (by simp [opCount]; omega)
+  | .varEval v => unfold evalExpr; exact (adds_bind (adds_val _ _) (fun _ => adds_pure _)).cast (by simp [opCount])
+  | .sliceEval value index dt =>
+    unfold evalExpr
+    exact (adds_bind (each_operand_once value true) (fun _ => adds_bind (each_operand_once index true) (fun _ =>
+      adds_bind (adds_val _ _) (fun _ => adds_pure _)))).cast (by simp [opCount]; omega)
+  | .substr value start none =>
+    unfold evalExpr
+    exact (adds_bind (each_operand_once start true) (fun _ => adds_bind (each_operand_once value true) (fun _ =>
+      adds_bind (adds_val _ _) (fun _ => adds_pure _)))).cast (by simp [opCount]; omega)
+  | .substr value start (some st) =>
+    unfold evalExpr
+    exact (adds_bind (each_operand_once start true) (fun _ => adds_bind (each_operand_once st true) (fun _ =>
+      adds_bind (each_operand_once value true) (fun _ => adds_bind (adds_val _ _) (fun _ => adds_pure _))))).cast (by simp [opCount]; omega)
+  | .group x => unfold evalExpr; exact (each_operand_once x used).cast (by simp [opCount])
+  | .call name rets args =>
+    unfold evalExpr
+    refine (adds_bind (args_once args) (fun _ => adds_bind (adds_funcCall _ _ _ _) (fun vs => ?_))).cast (by simp [opCount]; rfl)
+    split
+    · exact adds_fail 0 _
+    · exact adds_pure _
+  | .app name args none =>
+    unfold evalExpr
+    exact (adds_bind (chain_once (.app name args none)) (fun _ => adds_appCall _ _)).cast (by simp [opCount, chainCount])
+  | .app name args (some nx) =>
+    unfold evalExpr
+    exact (adds_bind (chain_once (.app name args (some nx))) (fun _ => adds_appCall _ _)).cast (by simp [opCount, chainCount])
+  | .sliceNew dt vals =>
+    unfold evalExpr
+    exact (adds_bind (args_once vals) (fun _ => adds_bind (adds_val _ _) (fun _ => adds_pure _))).cast (by simp [opCount])
+  | .input none =>
+    unfold evalExpr
+    exact (adds_bind (adds_val _ _) (fun _ => adds_pure _)).cast (by simp [opCount])
+  | .input (some x) =>
+    unfold evalExpr
+    exact (adds_bind (each_operand_once x used) (fun _ => adds_bind (adds_val _ _) (fun _ => adds_pure _))).cast (by simp [opCount])
+  | .copy dst src =>
+    unfold evalExpr
+    exact (adds_bind (each_operand_once src true) (fun _ => adds_bind (adds_val _ _) (fun _ => adds_pure _))).cast (by simp [opCount])
+  | .itoa x => unfold evalExpr; exact (adds_bind (each_operand_once x true) (fun _ => adds_pure _)).cast (by simp [opCount])
+  | .exists_ x =>
+    unfold evalExpr
+    exact (adds_bind (each_operand_once x true) (fun _ => adds_bind (adds_val _ _) (fun _ => adds_pure _))).cast (by simp [opCount])
+  | .len x =>
+    unfold evalExpr
+    refine (adds_bind (each_operand_once x true) (fun _ => ?_)).cast (by simp [opCount]; rfl)
+    split
+    · exact adds_bind (adds_val _ _) (fun _ => adds_pure _)
+    · exact adds_bind (adds_val _ _) (fun _ => adds_pure _)
+  | .read path =>
+    unfold evalExpr
+    split
+    · exact adds_fail _ _
+    · exact (adds_bind (each_operand_once path true) (fun _ => adds_bind (adds_val _ _) (fun _ => adds_pure _))).cast (by simp [opCount])
+  | .write _ _ _ => unfold evalExpr; exact adds_fail _ _
+  | .bad w => unfold evalExpr; exact adds_fail _ _
+
+theorem args_once (es : List Expr) : Adds (opCounts es) (evalArgs Trace.conv es) := by
+  match es with
+  | [] => unfold evalArgs; exact adds_pure _
+  | e :: rest =>
+    unfold evalArgs
+    exact (adds_bind (each_operand_once e true) (fun _ => adds_bind (args_once rest) (fun _ => adds_pure _))).cast (by simp [opCounts])
+
+theorem chain_once (e : Expr) : Adds (chainCount e) (evalAppChain Trace.conv e) := by
+  match e with
+  | .app name args (some nx) =>
+    unfold evalAppChain
+    exact (adds_bind (args_once args) (fun _ => adds_bind (chain_once nx) (fun _ => adds_pure _))).cast (by simp [chainCount])
+  | .app name args none =>
+    unfold evalAppChain
+    exact (adds_bind (args_once args) (fun _ => adds_pure _)).cast (by simp [chainCount])
+  | .boolLit _ | .intLit _ | .strLit _ | .varEval _ | .unary _ _ _ | .binary _ _ _ | .compare _ _ _
+  | .logical _ _ _ | .group _ | .call _ _ _ | .sliceNew _ _ | .sliceEval _ _ _ | .substr _ _ _ | .len _
+  | .itoa _ | .exists_ _ | .read _ | .input _ | .copy _ _ | .write _ _ _ | .bad _ =>
+    unfold evalAppChain; exact (adds_pure _).cast (by simp [chainCount])
+end
+
+/-- printed values: every expression once, in list order -/
+theorem printed_values_once (es : List Expr) : Adds (opCounts es) (evalAll Trace.conv es) := by
+  induction es with
+  | nil => unfold evalAll; exact adds_pure _
+  | cons e rest ih =>
+    unfold evalAll
+    exact (adds_bind (each_operand_once e true) (fun _ => adds_bind ih (fun _ => adds_pure _))).cast (by simp [opCounts])
+
+/-- **Arguments, slice elements, returned values: left to right** -- for EVERY converter the argument
+    walk is: first expression, then the rest, values collected in that order. -/
+theorem arguments_left_to_right {σ : Type} (cv : Conv σ) (e : Expr) (rest : List Expr) :
+    evalArgs cv (e :: rest) = (do let r ← evalExpr cv e true; let rs ← evalArgs cv rest; pure (firstValue r :: rs)) := by
+  rw [evalArgs]
+
+/-- **Binary operators: left operand, then right operand, then the operation on both values** -- for
+    every converter (same for comparisons and the eager `&&` / `||`) -/
+theorem binary_left_then_right {σ : Type} (cv : Conv σ) (op : String) (l r : Expr) (used : Bool) :
+    evalExpr cv (.binary op l r) used = (do
+      let a ← evalExpr cv l true
+      let b ← evalExpr cv r true
+      let s ← cv.binaryOperation (firstValue a) op (firstValue b) (Expr.valueType l) used
+      pure [s]) := by
+  rw [evalExpr]
+
+theorem logical_is_eager {σ : Type} (cv : Conv σ) (op : String) (l r : Expr) (used : Bool) :
+    evalExpr cv (.logical op l r) used = (do
+      let a ← evalExpr cv l true
+      let b ← evalExpr cv r true
+      let s ← cv.logicalOperation (firstValue a) op (firstValue b) (Expr.valueType l) used
+      pure [s]) := by
+  rw [evalExpr]
+
+/-- a single string index evaluates the index once and uses its value for both bounds -/
+theorem single_index_once {σ : Type} (cv : Conv σ) (v a : Expr) (used : Bool) :
+    evalExpr cv (.substr v a none) used = (do
+      let x ← evalExpr cv a true
+      let y ← evalExpr cv v true
+      let s ← cv.stringSubscript (firstValue y) (firstValue x) (firstValue x) used
+      pure [s]) := by
+  rw [evalExpr]
+
+/-- operations requested by the conditions of the else-if branches -/
+def condCount : List (Expr × List Stmt) → Nat
+  | [] => 0
+  | (c, _) :: rest => opCount c + condCount rest
+
+theorem conditions_once : ∀ (elifs : List (Expr × List Stmt)), Adds (condCount elifs) (evalConds Trace.conv elifs)
+  | [] => by unfold evalConds; exact adds_pure _
+  | (c, _) :: rest => by
+    unfold evalConds
+    exact (adds_bind (each_operand_once c true) (fun _ => adds_bind (conditions_once rest) (fun _ => adds_pure _))).cast (by simp [condCount])
+
+/-- **All conditions of an if / else-if chain before any branch**: the walk evaluates the `if`
+    condition, then the conditions of ALL else-if branches, and only then opens the `if`; the branches
+    receive the values computed before (for every converter). -/
+theorem if_conditions_before_branches {σ : Type} (cv : Conv σ) (cond : Expr) (body : List Stmt)
+    (elifs : List (Expr × List Stmt)) (els : List Stmt) :
+    evalStmt cv (.ifS cond body elifs els) = (do
+      let c ← evalExpr cv cond true
+      let ecs ← evalConds cv elifs
+      cv.ifStart (firstValue c)
+      evalBlock cv body
+      evalElifs cv elifs ecs
+      evalElse cv els
+      cv.ifEnd) := by
+  rw [evalStmt]
+
+/-- the branches of the chain request no evaluation of their own condition: an else-if branch is the
+    `elif` operation on the precomputed value, then its body -/
+theorem elif_uses_precomputed_value {σ : Type} (cv : Conv σ) (c : Expr) (body : List Stmt)
+    (rest : List (Expr × List Stmt)) (v : String) (vs : List String) :
+    evalElifs cv ((c, body) :: rest) (v :: vs) = (do
+      cv.elseIfStart v
+      evalBlock cv body
+      cv.elseIfEnd
+      evalElifs cv rest vs) := by
+  rw [evalElifs]
+
+/-- **Loop order**: init; loop head; guarded increment; condition; exit test; body; loop end. -/
+theorem loop_order {σ : Type} (cv : Conv σ) (init : Option Stmt) (cond : Expr) (incr : Option Stmt) (body : List Stmt) :
+    evalStmt cv (.forS init cond incr body) = (do
+      evalInit cv init
+      cv.forStart
+      evalIncr cv incr
+      let c ← evalExpr cv cond true
+      cv.forCondition (firstValue c)
+      evalBlock cv body
+      cv.forEnd) := by
+  rw [evalStmt]
+
+/-! non-vacuity: `f(g(1), x + "s")` with a tracing run -/
+private def xv : Var := { name := "x", vt := ⟨.string, false⟩, global := true, pub := false }
+private def ex : Expr := .call "f" [⟨.int, false⟩] [.call "g" [⟨.int, false⟩] [.intLit 1], .binary "+" (.varEval xv) (.strLit "s")]
+#guard opCount ex == 5
+#guard (match evalExpr Trace.conv ex true {} with | .ok (_, s) => s.log.map (·.op) | _ => []) == ["call", "load", "literal", "binary", "call"]
 
 end Tsh.C04
